@@ -201,12 +201,14 @@ func (r *responder) flush(c *netlab.SConn) {
 			}(o.frame)
 			continue
 		}
-		_ = c.Send(o.frame)
 		if o.cut {
-			time.Sleep(time.Millisecond)
-			c.Close()
+			// the cut response is the last thing this connection carries: written and closed in one
+			// step, so that the flusher cannot put another response behind it on the same connection
+			// (which would complete the cut one — the peer's doing, not the client's)
+			c.SendAndClose(o.frame)
 			return
 		}
+		_ = c.Send(o.frame)
 	}
 }
 
